@@ -1267,6 +1267,10 @@ class SBits:
   def __format__(self, spec):
     return format(self.__index__(), spec)
 
+  def to_bytes(self, length, byteorder='big', *, signed=False):
+    from harness import symbytes  # pylint: disable=g-import-not-at-top
+    return symbytes.int_to_bytes(self, length, byteorder, signed)
+
   def __repr__(self):
     return 'SBits(%s)' % self.t
 
